@@ -91,14 +91,14 @@ class Gl:
         lpf = find_lpf(gp)
         if lpf is None:
             raise InterpError('GlideProcessor holds no biquad::DirectForm1 (state must be previous input/output): %r' % (gp,))
-        if 'cached_t' not in gp.names:
+        if not gp.has('cached_t'):
             raise InterpError('GlideProcessor.cached_t (anchor of C14: the time currently in effect) is missing: %s' % gp.names)
         for n in ('x1', 'x2', 'y1', 'y2'):
-            lpf.fields[lpf.names.index(n)] = float_sym(st, 'lpf.' + n)
+            lpf.set(n, float_sym(st, 'lpf.' + n))
         co = lpf.get('coeffs')
         for n in co.names:
-            co.fields[co.names.index(n)] = float_sym(st, 'coef.' + n)
-        gp.fields[gp.names.index('cached_t')] = float_sym(st, 'cached_t')
+            co.set(n, float_sym(st, 'coef.' + n))
+        gp.set('cached_t', float_sym(st, 'cached_t'))
         return gp
 
 
@@ -212,7 +212,7 @@ def check_glide(res, facts, prop):
     if prop == 'C14':
         # the dead-band reference of a fresh processor: either a sentinel that no t >= 0 is close to (the first call is always
         # honoured), or the time whose design the constructor actually installed
-        ct0 = tmpl.get('cached_t').term if 'cached_t' in tmpl.names else None
+        ct0 = tmpl.get('cached_t').term if tmpl.has('cached_t') else None
         c0 = ct0.const_value() if ct0 is not None else None
         ok0, why0 = False, 'cached_t after new() = %r' % (ct0,)
         if ct0 is not None and ct0.inf_sign() == -1:
